@@ -60,6 +60,9 @@ pub struct HubState {
     pub id2addr: HashMap<String, String>,
     /// undirected connections
     pub conns: HashSet<(String, String)>,
+    /// connections that were closed again (`Hub::unlink`): the two nodes still know each other (routing tables keep the
+    /// entry) but have to dial again before they can exchange frames
+    pub closed: HashSet<(String, String)>,
     /// peers that silently drop everything addressed to them (unresponsive)
     pub silent: HashSet<String>,
     /// addresses where a dial never completes (a host that drops packets): only the dialler's own timeout ends it
@@ -100,6 +103,7 @@ impl Hub {
                 addr2id: HashMap::new(),
                 id2addr: HashMap::new(),
                 conns: HashSet::new(),
+                closed: HashSet::new(),
                 silent: HashSet::new(),
                 blackholes: HashSet::new(),
                 frames: Vec::new(),
@@ -123,6 +127,15 @@ impl Hub {
     /// Record a connection between two endpoints (for connections the harness opens "from outside").
     pub fn link(&self, a: &str, b: &str) {
         self.st.lock().expect("hub").conns.insert(pair(a, b));
+    }
+
+    /// Close the connection between two endpoints at the network level (both directions): frames are refused until one of
+    /// them dials again. The pair stays in `neighbours` - the nodes still know each other.
+    pub fn unlink(&self, a: &str, b: &str) {
+        let mut s = self.st.lock().expect("hub");
+        if s.conns.remove(&pair(a, b)) {
+            s.closed.insert(pair(a, b));
+        }
     }
 
     pub fn add_blackhole(&self, addr: &str) {
@@ -151,10 +164,17 @@ impl Hub {
         let mut v: Vec<String> = s
             .conns
             .iter()
+            .chain(s.closed.iter().filter(|p| !s.conns.contains(*p)))
             .filter_map(|(a, b)| if a == id { Some(b.clone()) } else if b == id { Some(a.clone()) } else { None })
             .collect();
         v.sort();
         v
+    }
+
+    /// Peers `id` currently has an open connection to (a subset of `neighbours`).
+    pub fn connected(&self, id: &str) -> Vec<String> {
+        let s = self.st.lock().expect("hub");
+        s.conns.iter().filter_map(|(a, b)| if a == id { Some(b.clone()) } else if b == id { Some(a.clone()) } else { None }).collect()
     }
 
     /// Reply of a harness endpoint to a DHT request, as a wire frame from `me` (None = stay silent).
